@@ -716,7 +716,7 @@ func (c *Ctx) c15Check(root *CTy, txt string, all []string, cp, target, cls stri
 }
 
 func genC15(c *Ctx) {
-	c.Rule = "dependency graphs over k steps (every subset of the k*k edges, self-loops and cycles included): all graphs over 3 steps in the quick tier (2^9) and all over 4 steps in the thorough tier (2^16; the quick tier samples 1500 of them), each x every current step x every root field as target (steps, a merely declared step, input, variables), the target read at the head of the path; for a sample also inside a filter, a function argument and a nested group, and with the root field written with its `?` mark (`$.s1?.name`, also inside an argument); the 3-step graphs again with the root fields declared in three other orders (steps before input, reversed, rotated); plus random graphs of up to 12 steps (chains, diamonds, fan-in, dangling names). Oracle: accepted iff the target is a base path or in the transitive closure of the current step's _dependencies, and is not the current step itself (unless input); the fields offered at the root are exactly the non-blocked ones; a dependency naming an undeclared step yields an error result; every call returns within the watchdog. distinct = distinct (class, verdict)"
+	c.Rule = "dependency graphs over k steps (every subset of the k*k edges, self-loops and cycles included): all graphs over 3 steps in the quick tier (2^9) and all over 4 steps in the thorough tier (2^16, one current step per graph, chosen by a hash of the edge set: 65536 (graph, current step) pairs x 7 targets instead of 4 x as many; the quick tier samples 800 graphs with every current step), each x every current step (3 steps) x every root field as target (steps, a merely declared step, input, variables), the target read at the head of the path; for a sample also inside a filter, a function argument and a nested group, and with the root field written with its `?` mark (`$.s1?.name`, also inside an argument); the 3-step graphs again with the root fields declared in three other orders (steps before input, reversed, rotated); plus random graphs of up to 12 steps (chains, diamonds, fan-in, dangling names). Oracle: accepted iff the target is a base path or in the transitive closure of the current step's _dependencies, and is not the current step itself (unless input); the fields offered at the root are exactly the non-blocked ones; a dependency naming an undeclared step yields an error result; every call returns within the watchdog. distinct = distinct (class, verdict)"
 	run := func(k int, mask uint64, cls string, positions bool) {
 		var steps []string
 		for i := 0; i < k; i++ {
@@ -732,7 +732,12 @@ func genC15(c *Ctx) {
 		}
 		root, txt := c15Schema(steps, edges, []string{"lonely"})
 		all := append(append([]string{"input", "variables"}, steps...), "lonely")
-		for _, cp := range steps {
+		for ci, cp := range steps {
+			// the complete 4-step block takes one current step per graph (the relabellings of a graph are in the block too and get
+			// other current steps); the 3-step block and the sampled 4-step graphs take all
+			if k == 4 && cls == "exhaustive/4-steps" && uint64(ci) != (mask^(mask>>7))%4 {
+				continue
+			}
 			for _, target := range all {
 				c.c15Check(root, txt, all, cp, target, cls, positions)
 			}
